@@ -14,6 +14,7 @@ import itertools
 import json
 import os
 import random
+import re
 import subprocess
 import sys
 import time
@@ -264,6 +265,19 @@ def _fixed_den_cases():
         # operand-level $not consumes exactly one operand
         ({"pattern": [{"mov": [{"$not": ["rax"]}, "rbx"]}]}, R(("mov", ["%rbx", "%rax"]), ("mov", ["%rcx", "%rbx"]))),
         ({"pattern": [{"mov": ["rsp", {"$not": ["eax"]}, "rbp"]}]}, R(("mov", ["%rsp", "%rbp"]))),
+        # $not as a member of an operator group INSIDE an operand list: still one operand, typed at operand level
+        ({"pattern": [{"mov": [{"$or": [{"$not": ["rax"]}, "rsp"]}, "rbx"]}]}, [("10", "mov", ["%rax", "%rbx"]), ("13", "mov", ["%rcx", "%rbx"]), ("16", "ret", [""])]),
+        ({"pattern": [{"mov": [{"$and": [{"$not": ["rax"]}, "rbx"]}]}]}, [("10", "mov", ["%rax", "%rbx"]), ("13", "mov", ["%rcx", "%rbx"]), ("16", "ret", [""])]),
+        ({"pattern": [{"mov": [{"$and_any_order": [{"$not": ["rax"]}, "rdx"]}]}]}, [("10", "mov", ["%rax", "%rdx"]), ("13", "mov", ["%rdx", "%rcx"]), ("16", "ret", [""])]),
+        # names that differ from the listing only in case never match, also under $not (matching is case-sensitive)
+        ({"pattern": [{"$not": ["CALL"]}, "ret"]}, [("10", "call", ["401000"]), ("15", "ret", [""])]),
+        ({"pattern": [{"mov": [{"$not": ["RAX"]}, "rbx"]}]}, [("10", "mov", ["%rax", "%rbx"]), ("13", "ret", [""])]),
+        ({"pattern": ["PUSH"]}, [("10", "push", ["%rbp"]), ("11", "ret", [""])]),
+        # two-digit bounds of a repetition (9..10, 2..10, 8..12): bounds are numbers, never compared as text
+        ({"pattern": ["push", {"nop": {"times": {"min": 2, "max": 10}}}, "pop"]}, [("10", "push", ["%rbp"])] + [(format(0x11 + k, "x"), "nop", [""]) for k in range(3)] + [("20", "pop", ["%rbp"])]),
+        ({"pattern": ["push", {"nop": {"times": {"min": 9, "max": 10}}}, "pop"]}, [("10", "push", ["%rbp"])] + [(format(0x11 + k, "x"), "nop", [""]) for k in range(10)] + [("20", "pop", ["%rbp"])]),
+        ({"pattern": ["push", {"nop": {"times": {"min": 9, "max": 10}}}, "pop"]}, [("10", "push", ["%rbp"])] + [(format(0x11 + k, "x"), "nop", [""]) for k in range(8)] + [("20", "pop", ["%rbp"])]),
+        ({"pattern": ["push", {"$and": ["nop", "inc"], "times": {"min": 8, "max": 12}}, "pop"]}, [("10", "push", ["%rbp"])] + [(format(0x11 + k, "x"), ("nop", "inc")[k % 2], [("", "%eax")[k % 2]]) for k in range(18)] + [("40", "pop", ["%rbp"])]),
         # addresses that are not increasing (sections of an object file restart at 0): consecutive means consecutive IN THE LISTING
         ({"pattern": ["mov", "xor"]}, [("0", "push", ["%rbp"]), ("1", "mov", ["%rsp", "%rbp"]), ("0", "xor", ["%eax", "%eax"]), ("2", "ret", [""])]),
         ({"pattern": ["push", "xor"]}, [("0", "push", ["%rbp"]), ("1", "mov", ["%rsp", "%rbp"]), ("0", "xor", ["%eax", "%eax"]), ("2", "ret", [""])]),
@@ -594,6 +608,11 @@ def undefined_macro_sweep() -> Tuple[Dict[str, Any], List[Dict[str, Any]]]:
         rule4 = {"macros": body_defs4, "pattern": [{"mov": ["%rax", "@r"]}, "@user"]}
         jobs.append({"kind": "compile", "rule": rule4})
         ids.append(("defined-in-body", order + ":direct-operand-use-too", "rule", rule4, []))
+    # one string macro referenced several times inside ONE text: every reference is expanded
+    for tid, text in (("inside", "%@r+@r*8"), ("at-start", "@r+@r"), ("three", "[@r+@r*@r]")):
+        rule5 = {"macros": [{"name": "@r", "pattern": "rax"}], "pattern": [{"lea": [text, "rcx"]}]}
+        jobs.append({"kind": "compile", "rule": rule5})
+        ids.append(("defined-in-body", "several-references-in-one-text:" + tid, "rule", rule5, []))
     # every case once more with the jasm logger at DEBUG level (`--debug`)
     n0 = len(jobs)
     for k in range(n0):
@@ -825,6 +844,9 @@ def decorate(rnd: random.Random, lines: List[str]) -> List[str]:
         if rnd.random() < 0.5:
             nb = rnd.randrange(1, 13)          # objdump --insn-width changes how many raw bytes one line shows
             byt = " ".join(format(rnd.randrange(256), "02x") for _ in range(nb)).ljust(rnd.choice([20, 21, 24])) + " "
+        if rnd.random() < 0.1 and "#" not in text and "<" not in text and re.fullmatch(r"\S+ +\S+", text):
+            # an analyst's tab-aligned note behind the operands: a comment is presentation whatever it contains
+            text = text + "        # 404010 <counter>\t; note\taligned with tabs"
         out.append("\t".join([head, byt, text]))
         if rnd.random() < 0.1:
             a = head.strip()[:-1]
@@ -840,11 +862,30 @@ def parser_sweep(n: int, seed: int) -> Tuple[Dict[str, Any], List[Dict[str, Any]
     cfg = {"style": "intel", "mnemonics-full-match": True, "operands-full-match": True, "sections": [".text"]}
     # fourth job: the decorated listing without its FIRST section header (a later one stays): headers are presentation
     dec_nofirst = [l_ for l_ in dec if l_ != "Disassembly of section .text:"]
+    # fifth job: the decorated listing under a rule with a valid_addr_range that no target of the listing lies in: the observers
+    # installed for the range leave every other instruction -- and the removal of byte-continuation lines -- as they are
+    far = "fedcba9876543210"
+    cfg_range = {"valid_addr_range": {"min": "0x" + far, "max": "0x" + far}}
     jobs = [{"kind": "parse", "lines": lines, "stream": True}, {"kind": "parse", "lines": dec, "stream": True},
             {"kind": "parse", "lines": dec, "stream": True, "config": cfg}, {"kind": "parse", "lines": dec_nofirst, "stream": True}]
+    if not any(far in l_ for l_ in dec):
+        jobs.append({"kind": "parse", "lines": dec, "stream": True, "config": cfg_range})
     res = replay.run_real(jobs, timeout=1800)
     viol = []
-    a, b, b_cfg, b_nf = res
+    a, b, b_cfg, b_nf = res[:4]
+    if len(res) > 4 and b.get("stream", {}).get("result") == a.get("stream", {}).get("result") \
+            and res[4].get("stream", {}).get("result") != a.get("stream", {}).get("result"):
+        # (only when the decorated listing gives the plain stream WITHOUT the range: otherwise the presentation edit itself is the cause)
+        sa_, sr_ = a.get("stream", {}).get("result") or "", res[4].get("stream", {}).get("result") or ""
+        ra, rr = sa_.split("|"), sr_.split("|")
+        k = 0
+        while k < min(len(ra), len(rr)) and ra[k] == rr[k]:
+            k += 1
+        viol.append({"input": {"config": cfg_range, "plain": lines[:40], "decorated": dec[:80]},
+                     "real": {"default_config_record": ra[k] if k < len(ra) else None, "with_range_record": rr[k] if k < len(rr) else None,
+                              "error": res[4].get("stream", {}).get("error") or res[4].get("error")},
+                     "disagreement": "with a valid_addr_range that contains no target of the listing, the instruction stream of the decorated listing "
+                                     "differs from the stream of the plain one (byte-continuation lines / other instructions are affected by the range observer)"})
     if b_nf.get("stream", {}).get("result") != a.get("stream", {}).get("result"):
         viol.append({"input": {"plain": lines[:40], "decorated": dec_nofirst[:80]},
                      "real": {"plain": (a.get("stream", {}).get("result") or "")[:400], "decorated": (b_nf.get("stream", {}).get("result") or "")[:400]},
